@@ -146,6 +146,10 @@ func check(c Case) vk.Verdict {
 	// a middleware in front of the idempotency middleware sets a per-request response header (a request id)
 	app.Use(func(ctx fiber.Ctx) error {
 		ctx.Set("X-Up", "up-"+ctx.Get("X-G"))
+		// ... a header in two lines and a cookie of its own (preload hints, a visitor cookie)
+		ctx.Response().Header.Add("X-Up2", "u1-"+ctx.Get("X-G"))
+		ctx.Response().Header.Add("X-Up2", "u2-"+ctx.Get("X-G"))
+		ctx.Cookie(&fiber.Cookie{Name: "visitor", Value: "v" + ctx.Get("X-G")})
 		return ctx.Next()
 	})
 	app.Use(idempotency.New(cfg))
@@ -178,7 +182,7 @@ func check(c Case) vk.Verdict {
 			return out
 		}
 		sig := fmt.Sprintf("%d|%q", resp.StatusCode(), resp.Body())
-		for _, h := range []string{"X-Rep", "X-Multi", "Set-Cookie", "X-Up"} {
+		for _, h := range []string{"X-Rep", "X-Multi", "Set-Cookie", "X-Up", "X-Up2"} {
 			if kept(h) {
 				vals := pa(h)
 				// (EnableSplittingOnParsers is an option for parsing requests: a replayed "v1, v2" stays one field line)
